@@ -105,9 +105,15 @@ def metrics_batch(item):
                        "fee": encode.exact_int(t.fee, 1.0 / U, "fee")})
         for x in sp["daily"]:
             ev.append({"k": "bal", "x": int(x)})
-        me = {"k": "metrics", "exc": "none", "m": {}}
+        me = {"k": "metrics", "exc": "none", "m": {}, "argsame": True}
         try:
-            m = metrics.trades(ts, [float(x) for x in sp["daily"]])
+            arg = [float(x) for x in sp["daily"]]
+            before = list(arg)
+            if sp.get("final", True):
+                m = metrics.trades(ts, arg)
+            else:
+                m = metrics.trades(ts, arg, final=False)          # the way Strategy.metrics calls it
+            me["argsame"] = (arg == before and len(arg) == len(before))
             keys = KEYS if ts else ["total", "win_rate", "net_profit_percentage"]
             for k in keys:
                 if k not in m:
@@ -183,10 +189,32 @@ def equity_run(item):
     candles = {s: S.lattice_walk(n, seed * 7 + (13 if s.startswith('ETH') else 0), start=100 + (20 if s.startswith('ETH') else 0),
                                  floor=40) for s in syms}
     pol = dict(item["policy"], spot=(typ == 'spot'), seed=seed)
+    if typ == 'spot':
+        # one entry fill per position and no exit edits: exits are declared once (re-declaring them while the old sell
+        # orders still rest is rejected by the spot account for lack of base - strategy-layer behaviour, not C16's subject)
+        pol.update(max_entry_rows=1, p_edit=0.0, p_edit_on_reduced=0.0, no_sl=True, p_liquidate=0.0)
     rec = S.Recorder(account=True).install()
+    reads = {"metrics": 0, "daily_balances": 0, "portfolio_value": 0, "errors": 0}
+
+    def observe(strategy, hook, order):
+        """a strategy that looks at its own report while running (read-only use of the public properties)"""
+        if not item.get("reads"):
+            return
+        try:
+            if hook in ("before", "on_open_position") and strategy.index % 13 == 1:
+                _ = strategy.portfolio_value
+                reads["portfolio_value"] += 1
+                _ = list(strategy.daily_balances)
+                reads["daily_balances"] += 1
+            if (hook == "after" and strategy.index % 97 == 3) or (hook == "on_close_position" and strategy.trades_count % 7 == 0) \
+                    or (hook == "update_position" and strategy.index % 211 == 5):
+                _ = strategy.metrics
+                reads["metrics"] += 1
+        except Exception:
+            reads["errors"] += 1
     try:
         routes = [{'symbol': s_, 'timeframe': item.get("tf", "1m")} for s_ in syms]
-        out = S.run_backtest(pol, cfg, candles, routes=routes, fast=bool(item.get("fast")))
+        out = S.run_backtest(pol, cfg, candles, routes=routes, fast=bool(item.get("fast")), observe=observe)
     finally:
         rec.uninstall()
     ex = cfg['exchange']
@@ -198,11 +226,11 @@ def equity_run(item):
         a = e['accts'][ex]
         wallet, pl, al = _proj(a, a['pos'], e['active'], flags)
         ev.append({"k": "daily", "value": sc(e['value'], flags), "wallet": wallet, "pos": pl, "active": al, "exact": flags[0],
-                   "t": int(e['t'])})
+                   "t": int(e['t']), "len": int(e['n']), "series": []})
         ev[-1]["exact"] = flags[0]
     res = {"hdr": {"type": typ, "start": 10000 * 1024, "n": n, "syms": list(syms), "seed": seed, "tf": item.get("tf", "1m"),
                    "fast": bool(item.get("fast"))}, "ev": ev, "exc": out["exc"],
-           "ntrades": 0}
+           "ntrades": 0, "reads": reads}
     fin = out.get("final") or {}
     if out["exc"] is None and "accts" in fin:
         flags = [True]
@@ -210,7 +238,8 @@ def equity_run(item):
         pos = {k[len(ex) + 1:]: v for k, v in fin["pos"].items() if k.startswith(ex + "-")}
         active = [o for o in fin["orders"] if o["status"] == "ACTIVE"]
         wallet, pl, al = _proj(a, pos, active, flags)
-        ev.append({"k": "final", "value": 0, "wallet": wallet, "pos": pl, "active": al, "exact": flags[0], "t": 0})
+        ev.append({"k": "final", "value": 0, "wallet": wallet, "pos": pl, "active": al, "exact": flags[0], "t": 0, "len": len(fin["daily"]),
+                   "series": [sc(x, [True]) for x in fin["daily"]]})
         res["ntrades"] = len(fin.get("trades", []))
         res["mtrace"] = report_trace(fin.get("trades", []), (out.get("result") or {}).get("metrics"))
     return res
@@ -230,7 +259,7 @@ def report_trace(trades, m):
         ev.append({"k": "trade", "pnl": int(fp), "typ": str(t["type"]), "fee": int(ff)})
     if tot * 100 >= 2 * 10 ** 9:
         return None
-    me = {"k": "metrics", "exc": "none", "m": {}}
+    me = {"k": "metrics", "exc": "none", "m": {}, "argsame": True}
     keys = KEYS if trades else ["total", "win_rate", "net_profit_percentage"]
     for k in keys:
         if k not in m:
@@ -277,7 +306,8 @@ def equity_items(ctx, rng):
         if tf == "5m":
             n = max(5, n - n % 5)
         items.append({"typ": typ, "syms": list(routes), "n": n, "seed": ctx.seed * 1000 + k, "fee_den": rng.choice([0, 64, 1024]),
-                      "policy": POLICIES[k % len(POLICIES)], "lev": rng.choice([1, 2, 4]), "tf": tf, "fast": (k // 3) % 3 == 2})
+                      "policy": POLICIES[k % len(POLICIES)], "lev": rng.choice([1, 2, 4]), "tf": tf, "fast": (k // 3) % 3 == 2,
+                      "reads": k % 4 != 0})
         k += 1
     return items
 
@@ -374,6 +404,8 @@ def run(ctx):
                          "differs from the standard definition; TLC's shortest counter-example: " + model_cex)
     ctx.log("M done: %d trade lists, %d balance lists to replay" % (len(specs0) + len(specs_fee) + len(specs_long), len(specs_bal)))
     # ---------------- R: real metrics.trades in forked children
+    for j, sp in enumerate(specs0 + specs_fee + specs_long + specs_bal):
+        sp["final"] = (j % 3 != 1)
     jobs = chunked(specs0, 0, 1, 400) + chunked(specs_fee, 1024, 1024, 400) + chunked(specs_long, 0, 1, 6) + chunked(specs_bal, 0, 1, 200)
     res = run_isolated(metrics_batch, jobs, procs=16)
     traces = []
@@ -420,6 +452,7 @@ def run(ctx):
     ctx.log("R: %d metrics calls judged, %d rejected, %d expected values outside the lattice (not judged)" % (len(traces), bad, skipped))
     # ---------------- T: in-vivo equity
     etraces = []
+    nreads = {"metrics": 0, "daily_balances": 0, "portfolio_value": 0, "errors": 0}
     exc_kinds = {}
     excs = 0
     open_samples = 0
@@ -432,6 +465,8 @@ def run(ctx):
             excs += 1                 # a run that ends in a jesse exception is not judged for count / last sample
         tr = {"id": len(etraces) + 1, "hdr": rr["hdr"], "ev": rr["ev"]}
         etraces.append(tr)
+        for k_, v_ in rr.get("reads", {}).items():
+            nreads[k_] += v_
         n_open = sum(1 for e in rr["ev"] if e["k"] == "daily" and any(p["qty"] for p in e["pos"]))
         open_samples += n_open
         resting_two += sum(1 for e in rr["ev"] if e["k"] == "daily" and len({o["sym"] for o in e["active"] if o["side"] == "buy"}) >= 2)
@@ -451,7 +486,7 @@ def run(ctx):
                 i, t["hdr"]["type"], t["hdr"]["syms"], t["hdr"]["tf"], " fast" if t["hdr"]["fast"] else "", t["hdr"]["n"],
                 t["hdr"]["seed"], l, verdict, json.dumps(t["ev"][l - 1])[:500]),
                           {"kind": "equity", "item": items[i - 1]})
-    ctx.log("exceptions: %r" % (exc_kinds,))
+    ctx.log("exceptions: %r; reads by the strategies while running: %r" % (exc_kinds, nreads))
     ctx.log("T: %d runs (%d ended in an exception), %d samples with an open position, %d with resting buys on two symbols, %d rejected"
             % (len(etraces), excs, open_samples, resting_two, ebad))
     ctx.evaluations = len(traces) + sum(len(t["ev"]) for t in etraces)
@@ -461,7 +496,7 @@ def run(ctx):
         "equity_runs": len(etraces), "equity_runs_fast_mode": sum(1 for t in etraces if t["hdr"]["fast"]),
         "equity_runs_5m": sum(1 for t in etraces if t["hdr"]["tf"] == "5m"), "equity_runs_ending_in_exception": excs, "equity_samples": sum(len(t["ev"]) for t in etraces),
         "equity_samples_with_open_position": open_samples, "equity_samples_with_resting_buys_on_two_symbols": resting_two,
-        "equity_rejected": ebad, "equity_exception_kinds": exc_kinds, "model_counterexample_max_drawdown": model_cex,
+        "equity_rejected": ebad, "strategy_reads_during_runs": nreads, "equity_exception_kinds": exc_kinds, "model_counterexample_max_drawdown": model_cex,
         "trace_events_checked_by_tlc": sum(x.generated for x in results) + sum(x.generated for x in res2),
         "samples": samples,
         "rule": "metrics: one case per trade list / balance list; non-trivial = >= 2 trades with mixed signs or a balance-list "
